@@ -808,6 +808,66 @@ theorem or_flat (f : Nat) (a b : M) (ha : FlatDisj a) (hb : FlatDisj b) : FlatNF
       · rfl
     exact unionOf_flat f _ _ (Or.inr ⟨la, rfl, hla⟩) hb rfl hbe
 
+theorem exclude_single (f : Nat) (c : M) (name : String) (hc : c.isSingle = true)
+    (hne : (c.singleName? == some name) = false) : exclude f c name = c := by
+  cases f with
+  | zero => rfl
+  | succ n => cases c <;> simp [isSingle] at hc <;> simp only [exclude] <;> simp [hne]
+
+theorem exclude_multi_eq (f : Nat) (l : List M) (name : String) :
+    exclude (f + 1) (.multi l) name = multiOf f (l.filterMap fun c =>
+      if c.isSingle && c.singleName? == some name then none
+      else
+        let e := exclude f c name
+        if e.isEmpty then none else some e) := rfl
+
+/-- `exclude()` / `without_extras()` on a flat conjunction stays in normal form (every fuel ≥ 2) -/
+theorem exclude_flat_multi (f : Nat) (l : List M) (name : String) (hl : AllSingle l) :
+    FlatNF true (exclude (f + 2) (.multi l) name) := by
+  rw [exclude_multi_eq]
+  apply multiOf_flat
+  intro x hx
+  simp only [List.mem_filterMap] at hx
+  obtain ⟨c, hc, hcx⟩ := hx
+  have hcs := hl c hc
+  by_cases hcond : (c.isSingle && c.singleName? == some name) = true
+  · rw [if_pos hcond] at hcx; cases hcx
+  · rw [if_neg hcond] at hcx
+    have hne : (c.singleName? == some name) = false := by
+      simp only [hcs, Bool.true_and] at hcond
+      simpa using hcond
+    simp only [exclude_single (f + 1) c name hcs hne] at hcx
+    have : c.isEmpty = false := by cases c <;> simp [isSingle] at hcs <;> rfl
+    simp only [this, Bool.false_eq_true, if_false, Option.some.injEq] at hcx
+    rw [← hcx]; exact hcs
+
+theorem exclude_union_eq (f : Nat) (l : List M) (name : String) :
+    exclude (f + 1) (.union l) name =
+      (let kept := l.filterMap fun c =>
+         if c.isSingle && c.singleName? == some name then none else some (exclude f c name)
+       if kept.isEmpty then .any else unionOfList f kept) := rfl
+
+/-- the same for a flat disjunction -/
+theorem exclude_flat_union (f : Nat) (l : List M) (name : String) (hl : AllSingle l) :
+    FlatNF false (exclude (f + 2) (.union l) name) := by
+  rw [exclude_union_eq]
+  simp only
+  split
+  · right; left; rfl
+  · apply unionOfList_flat
+    intro x hx
+    simp only [List.mem_filterMap] at hx
+    obtain ⟨c, hc, hcx⟩ := hx
+    have hcs := hl c hc
+    by_cases hcond : (c.isSingle && c.singleName? == some name) = true
+    · rw [if_pos hcond] at hcx; cases hcx
+    · rw [if_neg hcond] at hcx
+      have hne : (c.singleName? == some name) = false := by
+        simp only [hcs, Bool.true_and] at hcond
+        simpa using hcond
+      simp only [exclude_single (f + 1) c name hcs hne, Option.some.injEq] at hcx
+      rw [← hcx]; exact hcs
+
 /-! non-vacuity: concrete flat operands, and what the model computes for them -/
 
 def atomA : M := .expr ⟨"os_name", .eq, "a", false, .gen ⟨.eq, "a"⟩⟩
